@@ -193,6 +193,39 @@ Proof.
   rewrite (H2 y Hy). ring.
 Qed.
 
+(* a sweep over any number of kernels (CWMH: one per coordinate) *)
+Definition ident (x y : A) : Q := if eqb x y then 1 else 0.
+
+Lemma sumQ_pick (f : A -> Q) y l : NoDup l -> In y l -> sumQ (fun x => f x * ident x y) l == f y.
+Proof.
+  unfold ident. induction l as [|z r IH]; intros Hn Hi; [destruct Hi|]. cbn.
+  inversion Hn as [|? ? Hz Hr]; subst.
+  destruct (eqb z y) eqn:E.
+  - apply eqb_spec in E. subst z.
+    assert (Z0 : sumQ (fun x => f x * (if eqb x y then 1 else 0)) r == 0).
+    { clear IH Hn Hi Hr. induction r as [|w r IH]; cbn; [reflexivity|].
+      destruct (eqb w y) eqn:E2.
+      - apply eqb_spec in E2. subst. exfalso. apply Hz. left. reflexivity.
+      - rewrite IH; [ring|]. intro Hi. apply Hz. right. exact Hi. }
+    rewrite Z0. ring.
+  - destruct Hi as [->|Hi].
+    + assert (eqb y y = true) by (apply eqb_spec; reflexivity). congruence.
+    + rewrite IH by assumption. ring.
+Qed.
+
+Theorem ident_invariant pi : invariant pi ident.
+Proof. intros y Hy. apply (sumQ_pick pi y S S_nodup Hy). Qed.
+
+Fixpoint compose_list (Ks : list (A -> A -> Q)) : A -> A -> Q :=
+  match Ks with [] => ident | K :: r => compose K (compose_list r) end.
+
+Theorem compose_list_invariant pi Ks : Forall (invariant pi) Ks -> invariant pi (compose_list Ks).
+Proof.
+  induction Ks as [|K r IH]; intro H; cbn [compose_list].
+  - apply ident_invariant.
+  - inversion H; subst. apply compose_invariant; [assumption | apply IH; assumption].
+Qed.
+
 (* the Metropolis-Hastings kernel with its rejection mass *)
 Variable pi : A -> Q.
 Variable q : A -> A -> Q.
@@ -341,3 +374,19 @@ Proof.
   - rewrite Ha. field. exact Hs.
   - field. exact Hs.
 Qed.
+
+(* ---- random walk with a proposal distribution of mean mu: x' | x ~ N(x + s mu, s^2) (one dimension) ---- *)
+Definition log_q_rw (s mu x x' : Q) : Q := - (1 # 2) * ((x' - x - s * mu) * (x' - x - s * mu) / (s * s)).
+
+(* mean zero: q(x'|x) = q(x|x'), the target ratio alone is the MH ratio *)
+Lemma rw_zero_mean_symmetric s x x' : log_q_rw s 0 x x' == log_q_rw s 0 x' x.
+Proof.
+  unfold log_q_rw.
+  setoid_replace ((x' - x - s * 0) * (x' - x - s * 0)) with ((x - x' - s * 0) * (x - x' - s * 0)) by ring.
+  reflexivity.
+Qed.
+
+(* mean not zero: the proposal is not symmetric although the distribution is flagged is_symmetric *)
+Lemma rw_nonzero_mean_refuted :
+  exists s mu x x' : Q, ~ s == 0 /\ ~ mu == 0 /\ ~ log_q_rw s mu x' x - log_q_rw s mu x x' == 0.
+Proof. exists 1, 1, 0, (3 # 2). repeat split; intro H; vm_compute in H; discriminate. Qed.
